@@ -24,7 +24,9 @@ LowerEntries(n) ==   \* tril_indices(k=-1) order: (2,1), (3,1), (3,2)
   CASE n = 1 -> {<<>>} [] n = 2 -> {<<0>>, <<2>>, <<-1>>}
     [] n = 3 -> IF Rich THEN {<<0, 0, 0>>, <<1, -1, 2>>, <<2, 0, -1>>} ELSE {<<0, 0, 0>>, <<1, -1, 2>>}
 Diags(n) ==
-  CASE n = 1 -> {<<One>>, <<Half>>} [] n = 2 -> {<<One, One>>, <<Two, Half>>}
+  \* (2000 and 1/500: diagonal entries whose logarithm (7.6, -6.2) is beyond any "safe" range a
+  \* parameterisation might clamp to; one feature only - products stay inside TLC's integers)
+  CASE n = 1 -> {<<One>>, <<Half>>, <<R(2000, 1)>>, <<R(1, 500)>>} [] n = 2 -> {<<One, One>>, <<Two, Half>>}
     [] n = 3 -> {<<One, One, One>>, <<Two, Half, R(3, 1)>>}
 QVecs(n) ==          \* Householder vectors (non-zero, different norms)
   CASE n = 1 -> {<<1>>, <<-2>>}
